@@ -97,6 +97,8 @@ pub enum Case {
     /// `<name>^<exponent literal>` with an exponent that is not a plain integer literal (`1.5`, `2.0`, `2e0`, `-0.5`):
     /// if accepted, the power applied must be exactly the literal's value.
     OddExponent { variant: String, exponent: String },
+    /// `<number>/<unit>`: the number in front of the slash of a unit expression.
+    UnitNumber { variant: String, number: String },
     /// Two unit expressions in ONE query (`(1 a) (1 b)`), b being a written with its blanks closed up or
     /// opened: each must be read exactly as it is read alone, in either order.
     ExprPair { a: String, b: String },
@@ -699,8 +701,37 @@ fn check_odd_exponent(variant: &str, exponent: &str) -> CaseReport {
     CaseReport::pass(key, true, vec![if a.is_some() || b.is_some() { "odd-exponent(accepted with its exact value)" } else { "odd-exponent(refused)" }])
 }
 
+/// `<number>/<unit>` as a unit expression: a reciprocal unit is written `1/s`.  Any other number in that place
+/// is refused or — if an entry point accepts it — must be read as the unit to the power minus one and nothing
+/// else only when the number's value is one; a number that is not one cannot silently disappear.
+fn check_unit_number(variant: &str, number: &str) -> CaseReport {
+    let v = vocab();
+    let u = v.unit(variant);
+    let text = format!("{}/{}", number, u.probe);
+    let key = format!("unit-number:{}", text);
+    let value = match crate::decimal::parse_literal(number) {
+        Some(x) => x,
+        None => return CaseReport::discard(key, "ill-formed number literal"),
+    };
+    let (a, b) = match tool_readings(&text) {
+        Ok(x) => x,
+        Err(p) => return CaseReport::fail(key, "panic", json!({"text": text, "panic": p})),
+    };
+    let one = value == crate::tool::big(1);
+    for (entry, reading) in [("str::parse::<Compound>", &a), ("query", &b)] {
+        if let Some(m) = reading {
+            let recip = m.len() == 1 && m.get(&u.key()).map(|(p, _)| *p) == Some(-1);
+            if !one || !recip {
+                return CaseReport::fail(key, "unit-number-dropped-or-misread", json!({"text": text, "entry_point": entry, "number_value": value.to_string(), "read_as": mirror_json(m)}));
+            }
+        }
+    }
+    CaseReport::pass(key, true, vec![if a.is_some() || b.is_some() { "unit-number(one, accepted)" } else { "unit-number(refused)" }])
+}
+
 fn check(c: &Case) -> CaseReport {
     match c {
+        Case::UnitNumber { variant, number } => check_unit_number(variant, number),
         Case::OddExponent { variant, exponent } => check_odd_exponent(variant, exponent),
         Case::ExprPair { a, b } => check_expr_pair(a, b),
         Case::Definition { variant } => check_definition(variant),
@@ -714,7 +745,7 @@ fn check(c: &Case) -> CaseReport {
 }
 
 pub fn run_check(ctx: &Ctx) {
-    ctx.set_rule("(1) all 86 unit definitions: `1 <name> to <SI base expression>` must equal an accepted standard scale — also under powers, in front of every target dimension of the vocabulary (accepted exactly when the dimensions agree) and as a divisor inside a cast expression (hand-written table: SI brochure, 1959 yard/pound agreement, NIST HB44, CODATA, IAU); (2) every typable [prefix]name word of data.toml: if accepted, its reading must be one of the segmentations of the word into documented prefix/unit names, and both entry points must agree; (3) every typable unit name alone denotes its own variant; (4) generated unit expressions (juxtaposition, blanks, * / ^n) against the stated semantics; (5) pairs of unit expressions that differ only in where blanks stand, evaluated in one query in both orders: each must be read as it is read alone; non-trivial = prefixed or multi-unit word, expression with / or ^ or several words; distinct by text");
+    ctx.set_rule("(1) all 86 unit definitions: `1 <name> to <SI base expression>` must equal an accepted standard scale — also under powers, in front of every target dimension of the vocabulary (accepted exactly when the dimensions agree) and as a divisor inside a cast expression (hand-written table: SI brochure, 1959 yard/pound agreement, NIST HB44, CODATA, IAU); (2) every typable [prefix]name word of data.toml: if accepted, its reading must be one of the segmentations of the word into documented prefix/unit names, and both entry points must agree; (3) every typable unit name alone denotes its own variant; (4) generated unit expressions (juxtaposition, blanks, * / ^n) against the stated semantics; (5) `<number>/<unit>` for 14 number spellings on every unit: refused, or read as the reciprocal unit and only when the number's value is one; fractional and decimal exponent spellings on every unit: refused, or read with the exact integer value; (6) pairs of unit expressions that differ only in where blanks stand, evaluated in one query in both orders: each must be read as it is read alone; non-trivial = prefixed or multi-unit word, expression with / or ^ or several words; distinct by text");
     ctx.assume("accepted-scale sets are deliberately generous (several national definitions per name); untypable names (μ, Ω, g-force) are skipped and counted");
     let corpus: Vec<(String, Case)> = load_corpus("C05");
     let cases: Vec<Case> = corpus.into_iter().map(|c| c.1).collect();
@@ -723,6 +754,9 @@ pub fn run_check(ctx: &Ctx) {
     let v = vocab();
     let defs: Vec<Case> = v.units.iter().map(|u| Case::Definition { variant: u.variant.clone() }).collect();
     ctx.run_list("definitions", &defs, check, |c| to_json(c));
+    // numbers other than a plain `1` in front of the slash of a unit expression
+    let nums: Vec<Case> = v.units.iter().flat_map(|u| ["1", "01", "+1", "0", "2", "3", "10", "-1", "1.0", "1e0", "0.5", "100%", "1.5", "11"].iter().map(move |n| Case::UnitNumber { variant: u.variant.clone(), number: n.to_string() })).collect();
+    ctx.run_list("unit-numbers", &nums, check, |c| to_json(c));
     let powers: &[i32] = ctx.tier.pick(&[-3, -2, -1, 2, 3][..], &[-6, -5, -4, -3, -2, -1, 2, 3, 4, 5, 6][..]);
     let defp: Vec<Case> = v.units.iter().flat_map(|u| powers.iter().map(move |n| Case::DefinitionPower { variant: u.variant.clone(), power: *n })).collect();
     ctx.run_list("definitions-under-powers", &defp, check, |c| to_json(c));
@@ -730,7 +764,7 @@ pub fn run_check(ctx: &Ctx) {
     let odd: Vec<Case> = v
         .units
         .iter()
-        .flat_map(|u| ["1.5", "2.5", "-0.5", "0.5", "2.0", "2e0", "1.9", "-1.5", "3.", "1e-1", "0.999999999999", "1.0000000001"].iter().map(move |e| Case::OddExponent { variant: u.variant.clone(), exponent: e.to_string() }))
+        .flat_map(|u| ["1.5", "2.5", "-0.5", "0.5", "2.0", "2e0", "1.9", "-1.5", "3.", "1e-1", "0.999999999999", "1.0000000001", "2147483647", "-2147483648", "2147483648", "-2147483649", "4294967297", "4294967298", "18446744073709551617", "65536", "65537", "-129", "256", "+2", "02"].iter().map(move |e| Case::OddExponent { variant: u.variant.clone(), exponent: e.to_string() }))
         .collect();
     ctx.run_list("odd-exponents", &odd, check, |c| to_json(c));
     // every name in front of every dimension that occurs in the vocabulary, and as a divisor under a cast
